@@ -174,6 +174,10 @@ CUSTOM_LAYERS = [
     [[0.3, 0.24, 0.40, 0.50, 155, 100], [0.5, 0.32, 0.50, 0.54, 15, 100], [1.2, 0.11, 0.33, 0.46, 500, 100]],
     [[2.0, 0.15, 0.31, 0.46, 500, 100]],
     [[0.5, 0.32, 0.50, 0.54, 15, 100], [1.5, 0.39, 0.54, 0.55, 2, 100]],
+    # strongly contrasting: thin sand over clay (root-zone averages lie outside the top layer's range)
+    [[0.2, 0.05, 0.12, 0.36, 3000, 100], [1.8, 0.39, 0.54, 0.55, 2, 100]],
+    # layers that end above the bottom of the compartment list (the last one is extended downwards)
+    [[0.4, 0.10, 0.22, 0.41, 1200, 100], [0.4, 0.23, 0.39, 0.5, 125, 100]],
 ]
 
 
@@ -205,7 +209,7 @@ def _season_window(rng, wname, crop, n_seasons, start_mode):
 def random_irr(rng, method, start, end):
     irr = {"method": int(method)}
     if method == 1:
-        irr["SMT"] = [float(rng.choice([20, 40, 60, 70, 80, 100])) for _ in range(4)]
+        irr["SMT"] = [float(rng.choice([0, 20, 40, 60, 70, 80, 100])) for _ in range(4)]
     if method == 2:
         irr["IrrInterval"] = int(rng.choice([1, 3, 7, 10, 20]))
     if method == 3:
@@ -306,7 +310,7 @@ def gen_scenario(rng, idx, strata=None):
             soil["dz"] = dz
         nlayer = 2 if soil["type"] in ("Paddy", "ac_TunisLocal") else 1
     else:
-        lays = copy.deepcopy(CUSTOM_LAYERS[rng.integers(len(CUSTOM_LAYERS))])
+        lays = copy.deepcopy(st["layers"] if "layers" in st else CUSTOM_LAYERS[rng.integers(len(CUSTOM_LAYERS))])
         if st.get("restrictive") or rng.random() < 0.3:
             lays[-1][5] = float(rng.choice([40, 70]))
         soil = {"type": "custom", "layers": lays, "dz": DZ_CHOICES[1 + rng.integers(len(DZ_CHOICES) - 1)]}
@@ -326,6 +330,12 @@ def gen_scenario(rng, idx, strata=None):
     # crop
     ov = {}
     scen["crop"] = {"name": crop_name, "planting": planting, "overrides": ov}
+    if st.get("harvest_early") or (strata is None and rng.random() < 0.12):
+        # a configured latest harvest date that precedes maturity: the season is closed by the date
+        hd = pd.Timestamp(year=2001, month=int(planting[:2]), day=int(planting[3:])) + \
+            pd.Timedelta(days=int(rng.integers(45, 140)))
+        if not (hd.month == 2 and hd.day == 29):
+            scen["crop"]["harvest"] = hd.strftime("%m/%d")
     # iwc
     scen["iwc"] = st.get("iwc") or random_iwc(rng, nlayer)
     # irrigation
@@ -334,7 +344,7 @@ def gen_scenario(rng, idx, strata=None):
         method = int(rng.integers(0, 6))
     scen["irr"] = random_irr(rng, method, start, end) if method != 0 or rng.random() < 0.5 else None
     scen["fm"] = random_fm(rng, st.get("fm"))
-    scen["ffm"] = random_fm(rng) if rng.random() < 0.25 else None
+    scen["ffm"] = random_fm(rng, st["ffm"]) if "ffm" in st else (random_fm(rng) if rng.random() < 0.25 else None)
     gw = st.get("gw")
     if gw is None:
         gw = rng.random() < 0.25
@@ -366,6 +376,21 @@ QUICK_STRATA = [
     dict(crop="DryBean", station="cordoba_climate.txt", irr_method=0, synth=True, regime="hot", n_seasons=1, start_mode="at"),
     dict(crop="Tef", station="tunis_climate.txt", irr_method=2, synth=True, regime="cold", n_seasons=1, start_mode="before", off_season=True),
     dict(crop="PotatoGDD", station="brussels_climate.txt", irr_method=5, fm="mix", n_seasons=1, start_mode="before", off_season=True),
+    # bunds during the season only, fallow days simulated, ponding soil, storms: water is still ponded when the bunds go
+    dict(crop="Maize", station="champion_climate.txt", irr_method=0, fm="bunds", ffm="none", soil="Clay", soil_kind="builtin",
+         synth=True, regime="storm", n_seasons=2, start_mode="before", off_season=True),
+    # net irrigation on a ponded field
+    dict(crop="PaddyRice", station="hyderabad_climate.txt", irr_method=4, fm="bunds", soil="Paddy", soil_kind="builtin",
+         n_seasons=1, start_mode="at"),
+    # net irrigation, thin sand over clay, deep roots, dry start
+    dict(crop="Cotton", station="tunis_climate.txt", irr_method=4, soil_kind="custom", layers=CUSTOM_LAYERS[4], n_seasons=2,
+         start_mode="at", off_season=False, iwc={"wc_type": "Pct", "method": "Layer", "depth_layer": [1, 2], "value": [30.0, 30.0]}),
+    # season closed by the configured latest harvest date; deficit irrigation on a heavy soil
+    dict(crop="Cotton", station="tunis_climate.txt", irr_method=1, soil="Clay", soil_kind="builtin", harvest_early=True,
+         n_seasons=2, start_mode="before", off_season=False),
+    # dry seed bed (delayed germination) under stage-dependent thresholds
+    dict(crop="Maize", station="champion_climate.txt", irr_method=1, soil="SiltLoam", soil_kind="builtin", n_seasons=1,
+         start_mode="at", iwc={"wc_type": "Pct", "method": "Layer", "depth_layer": [1], "value": [10.0]}),
 ]
 
 
